@@ -119,7 +119,7 @@ def search(ctx, budget_shapes):
 def run(ctx):
     rng = ctx.rng
     ctx.check_theorems()
-    ctx.check_generated(['crop', 'kcrop'])
+    ctx.check_generated(['crop', 'kcrop', 'ksrccrop'])
 
     # ---------------- (S) the property's own exhaustive box on the implementation ----------------
     maxs = 7
